@@ -486,13 +486,24 @@ class CombinedMinimizationVisitor(cv.ChromosomeVisitor):
     def _minimize_statements_across_test_suite(
         self, chromosome: tsc.TestSuiteChromosome, original_coverage: list[float]
     ) -> None:
+        # Statements whose variable is asserted on (or that such a variable is computed
+        # from) stay, as in the per-test-case visitors; determined once, on the
+        # unminimized test cases.
+        protected_variables = [
+            get_assertion_protected_variables(test_case_chrom.test_case)
+            for test_case_chrom in chromosome.test_case_chromosomes
+        ]
         statements_changed = True
         while statements_changed:
             statements_changed = False
             for test_case_idx, test_case_chrom in enumerate(chromosome.test_case_chromosomes):
                 test_case = test_case_chrom.test_case
+                protected = protected_variables[test_case_idx]
                 i = 0
                 while i < test_case.size():
+                    if test_case.get_statement(i).bound_variable in protected:
+                        i += 1
+                        continue
                     test_suite_clone = chromosome.clone()
                     clone_test_case_chrom: tcc.TestCaseChromosome = (
                         test_suite_clone.get_test_case_chromosome(test_case_idx)
